@@ -8,3 +8,6 @@ import IppModel.Props.C03
 #print axioms Ipp.Props.C03.independent_decoder_correct
 #print axioms Ipp.Props.C03.independent_decoder_reads_encoder
 #print axioms Ipp.Props.C03.any_message
+#print axioms Ipp.Props.C03.header_is_8
+#print axioms Ipp.Props.C03.header_change
+#print axioms Ipp.Props.C03.no_groups
